@@ -6,6 +6,7 @@ open Bool
 open Datatypes
 open Json
 open List
+open Options
 open OutViews
 open Plain
 open Pragma
@@ -46,5 +47,9 @@ val b2s : bool -> str
 val is_ok_status : jv -> bool
 
 val extras : jv -> jv -> (str * str) list
+
+val regex_table : jv -> str -> bool
+
+val opt_corr : jv -> bool
 
 val run_case : jv -> case_result
